@@ -49,6 +49,19 @@ func (g *c16Gen) malformedHashes() []string {
 	}
 }
 
+// hostileStrings: what percent-escapes in a path, query or header can decode to - bytes that are not valid UTF-8
+// (%ff, %c3%28, truncated and overlong sequences, lone surrogates), control characters, U+FFFE/U+FFFF.
+// (No '/' and never empty: they are used as single path segments too.)
+func (g *c16Gen) hostileStrings() []string {
+	if g.f.shape != "base" && !g.c.Thorough() {
+		// quick tier: the full list on the base store (with and without metrics), the essentials on the others
+		return []string{"\xff", "\xc3\x28", "\x00", "\x0a", "\xc0\xaf", "\xed\xa0\x80", "\xf0\x28\x8c\xbc", "%ff"}
+	}
+	return []string{"\xff", "\xfe\xff", "\xc3\x28", "\xc3", "\xe2\x82", "\xf0\x28\x8c\xbc", "\xf0\x90\x80", "\xc0\xaf", "\xc0\x80", "\xe0\x80\xaf",
+		"\xed\xa0\x80", "\xed\xbf\xbf", "\xf4\x90\x80\x80", "\xf8\x88\x80\x80\x80", "\x80", "\xbf", "a\xffb", "\x00", "\x0a", "\x0d\x0a", "a\nb", "\x1b[31m", "\x7f",
+		"\xef\xbf\xbe", "\xef\xbf\xbf", "\xef\xbb\xbf", "\u202e", "%ff", "%c3%28", "%00", "%"}
+}
+
 func c16Q(kv ...string) string {
 	parts := []string{}
 	for i := 0; i+1 < len(kv); i += 2 {
@@ -84,6 +97,10 @@ func (g *c16Gen) structured() []c16GenReq {
 		}
 		for _, h := range g.malformedHashes() {
 			add(g.get(rt.path+h, ""), "off "+rt.name+" h=mal")
+		}
+		for _, h := range g.hostileStrings() {
+			add(g.get(rt.path+h, ""), "off "+rt.name+" h=mal")
+			add(g.get(rt.path+known(2)[:20]+h+known(2)[20:], ""), "off "+rt.name+" h=mal")
 		}
 	}
 	// ---- by height
@@ -127,6 +144,27 @@ func (g *c16Gen) structured() []c16GenReq {
 		add(g.get("/chain/header/byHeight", hq("", false, ci)), "off byheight height=missing")
 		add(g.get("/chain/header/byHeight", hq("", true, ci)), "off byheight height=empty")
 	}
+	for _, o := range g.hostileStrings() {
+		add(g.get("/chain/header/byHeight", c16Q("height", o)), "")
+		add(g.get("/chain/header/byHeight", c16Q("height", "1", "count", o)), "off byheight height=n:1")
+		add(g.get("/chain/header/byHeight", "height="+o), "")           // raw, not escaped
+		add(g.get("/chain/header/byHeight", "height=1&"+o+"="+o), "") // hostile key
+		add(g.get("/chain/merkleroot", c16Q("batchSize", o)), "")
+		add(g.get("/chain/merkleroot", c16Q("lastEvaluatedKey", o)), "")
+		add(g.get("/chain/merkleroot", "lastEvaluatedKey="+o), "")
+		add(g.get("/webhook", c16Q("url", o)), "")
+		add(&c16Req{Method: "DELETE", Path: c16API + "/webhook", Query: c16Q("url", o)}, "")
+		add(&c16Req{Method: "DELETE", Path: c16API + "/access/" + o}, "off accdel tok=other")
+		add(&c16Req{Method: "DELETE", Path: c16API + "/access/" + c16UserToken + o}, "off accdel tok=other")
+		// headers
+		add(&c16Req{Method: "GET", Path: c16API + "/chain/tip", AuthOn: true, Auth: "Bearer " + o}, "")
+		add(&c16Req{Method: "GET", Path: c16API + "/chain/tip", AuthOn: true, Auth: o}, "")
+		add(&c16Req{Method: "POST", Path: c16API + "/webhook", CT: o, Body: c16Lit(`{"url":"http://c16.example/new"}`)}, "")
+		add(&c16Req{Method: "POST", Path: c16API + "/webhook", CT: "application/json; charset=" + o, Body: c16Lit(`{"url":"http://c16.example/new"}`)}, "off whpost body=ok:new")
+		// inside JSON strings (raw bytes; JSON escapes of lone surrogates are covered elsewhere)
+		add(g.post("/chain/header/commonAncestor", `["`+known(2)+o+`"]`), "")
+		add(g.post("/webhook", `{"url":"http://c16.example/`+o+`"}`), "")
+	}
 	add(g.get("/chain/header/byHeight", "height=1&height=abc"), "off byheight height=n:1")
 	add(g.get("/chain/header/byHeight", "height=abc&height=1"), "off byheight height=junk")
 	add(g.get("/chain/header/byHeight", "Height=1"), "off byheight height=missing")
@@ -146,6 +184,11 @@ func (g *c16Gen) structured() []c16GenReq {
 		add(g.get("/chain/header/"+k+"/"+o+"/ancestor", ""), "off anc h=k")
 		add(g.get("/chain/header/"+o+"/"+k+"/ancestor", ""), "off anc h=")
 		add(g.get("/chain/header/"+o+"/"+others[(n+3)%len(others)]+"/ancestor", ""), "off anc h=")
+	}
+	for n, o := range g.hostileStrings() {
+		add(g.get("/chain/header/"+known(n)+"/"+o+"/ancestor", ""), "off anc h=k")
+		add(g.get("/chain/header/"+o+"/"+known(n)+"/ancestor", ""), "off anc h=mal a=k")
+		add(g.get("/chain/header/"+o+"/"+o+"/ancestor", ""), "off anc h=mal a=mal")
 	}
 	add(g.get("/chain/header//x/ancestor", ""), "off anc h=mal a=mal") // an empty segment in the middle does match a parameter
 	add(g.get("/chain/header/"+known(2)+"//ancestor", ""), "off anc h=k2 a=mal")
@@ -430,7 +473,7 @@ func (g *c16Gen) structured() []c16GenReq {
 			r.AuthOn, r.Auth = true, "Bearer "+c16UserToken
 			add(&r, "user ")
 		}
-		if i%50 == 0 {
+		if i%50 == 0 && !out[i].r.AuthOn {
 			r := *out[i].r
 			r.Auth = "Bearer nosuchtoken" // auth disabled: the header is ignored
 			add(&r, "off ")
@@ -448,6 +491,14 @@ func (g *c16Gen) structured() []c16GenReq {
 	} {
 		add(&c16Req{Method: u.m, Path: u.p}, "off unrouted")
 		add(&c16Req{Method: u.m, Path: u.p, AuthOn: true}, "off unrouted")
+	}
+	for _, o := range g.hostileStrings() {
+		for _, pth := range []string{"/" + o, "/api/" + o, "/api/v1/" + o, "/api/v1/nosuch/" + o, "/api/v1/chain/tip/" + o, "/api/v1/chain/tip/longest/" + o,
+			"/api/v1/" + o + "/header/" + known(1), "/api/v1/network/peer/count/" + o, "/api/v1/chain/" + o} {
+			add(&c16Req{Method: "GET", Path: pth}, "off unrouted")
+		}
+		add(&c16Req{Method: "POST", Path: "/api/v1/webhook/" + o, CT: "application/json", Body: c16Lit("{}")}, "off unrouted")
+		add(&c16Req{Method: "DELETE", Path: "/api/v1/access/x/" + o}, "off unrouted")
 	}
 	return out
 }
@@ -495,7 +546,8 @@ func (g *c16Gen) mutated(n int) []*c16Req {
 			return &c16Req{Method: []string{"GET", "DELETE"}[rng.Intn(2)], Path: c16API + "/webhook", Query: "url=" + url.QueryEscape([]string{c16ActiveURL, c16InactiveURL, "http://c16.example/other"}[rng.Intn(3)])}
 		}
 	}
-	odd := []string{"\u202e", "\U0001F600", "\u0000", "\ufeff", "\xff", "\xc3\x28", "é", " ", "\\", `"`, "'", "%", "\x7f", "٣"}
+	odd := []string{"\u202e", "\U0001F600", "\u0000", "\ufeff", "\xff", "\xc3\x28", "é", " ", "\\", `"`, "'", "%", "\x7f", "٣",
+		"\n", "\xed\xa0\x80", "\xc0\xaf", "\xf0\x28\x8c\xbc", "\xef\xbf\xbe", "\x80"}
 	repl := []string{"123", "null", "{}", "[]", "true", "-1", "1.5", `""`, `{"a":1}`, `[1]`, "99999999999999999999", "1e400"}
 	bigs := []string{"2147483648", "-2147483649", "4294967296", "9223372036854775808", "-9223372036854775809", "123456789012345678901234567890", "1e3", "0.5", "-0", "00", "1" + strings.Repeat("0", 400)}
 	mutBody := func(b string) string {
